@@ -193,6 +193,38 @@ def gs_tla(i):
     return "[id |-> %d, cap |-> %d, A |-> %s, y |-> %s, x0 |-> %s, lamb |-> %s]" % (i["id"], i["cap"], A, vec(i["y"]), vec(i["x0"]), rat(i["lamb"]))
 
 
+def pdhg_instances(ctx):
+    """Dyadic steps (sigma = 1, tau = 1/a^2 or smaller), scalar or per-component; zero starts with l1 and small dual steps."""
+    rng = ctx.rng("pdhg")
+    out = []
+    n_inst = 150 if ctx.thorough else 48
+    for k in range(n_inst):
+        n = rng.choice([1, 2])
+        g = ["zero", "l1", "sq", "box"][k % 4]
+        a = [Fr(rng.choice([1, 2, -1] if g == "zero" else [1, 2, -1, 0])) for _ in range(n)]
+        arr = k % 3 == 0                     # array-valued steps
+        small = k % 5 == 2                   # small dual steps (1 + sigma = 5/4: non-dyadic, two exact updates fit 32-bit rationals)
+        sig = ([rng.choice([Fr(1), Fr(1, 4)]) for _ in range(n)] if arr else [Fr(1, 4)] * n) if small else [Fr(1)] * n
+        amax2 = max([v * v for v in a] + [Fr(1)])
+        tau = [(Fr(1) / (sig[i] * max(a[i] * a[i], Fr(1)))) * rng.choice([1, Fr(1, 2)]) for i in range(n)] if arr else [Fr(1) / (sig[0] * amax2) * rng.choice([1, Fr(1, 2)])] * n
+        tau = [min(t, Fr(4)) for t in tau]
+        start = ["zero", "given", "saddle"][(k // 4) % 3]
+        inst = {"id": k + 1, "cap": 2 if small else (4 if ctx.thorough else 3), "a": a, "y": [Fr(rng.choice([-3, -1, 1, 2, 4])) for _ in range(n)], "g": g,
+                "lam": Fr(rng.choice([1, 3])) if g != "sq" else rng.choice([Fr(1), Fr(3)]), "lo": Fr(-1, 2), "hi": Fr(1), "tau": tau, "sigma": sig, "start": start, "arr": arr}
+        if start == "given":
+            inst["x0"] = [Fr(rng.choice([-1, 0, 2])) for _ in range(n)]
+            inst["u0"] = [Fr(rng.choice([-1, 0, 1])) for _ in range(n)]
+        else:
+            inst["x0"] = inst["u0"] = [Fr(0)] * n
+        out.append(inst)
+    return out
+
+
+def pdhg_tla(i):
+    return ("[id |-> %d, cap |-> %d, a |-> %s, y |-> %s, g |-> \"%s\", lam |-> %s, lo |-> %s, hi |-> %s, tau |-> %s, sigma |-> %s, x0 |-> %s, u0 |-> %s, start |-> \"%s\"]"
+            % (i["id"], i["cap"], vec(i["a"]), vec(i["y"]), i["g"], rat(i["lam"]), rat(i["lo"]), rat(i["hi"]), vec(i["tau"]), vec(i["sigma"]), vec(i["x0"]), vec(i["u0"]), i["start"]))
+
+
 # ------------------------------------------------------------------ TLC
 def model(r, wd, module, insts, to_tla, max_iters, invariants, props, label):
     body = "EXTENDS %s\nMCInsts == {%s}\n" % (module, ",\n  ".join(to_tla(i) for i in insts))
@@ -515,6 +547,64 @@ def replay_gs(sp, r, insts, states):
     return n
 
 
+def replay_pdhg(sp, r, insts, states):
+    byid = {i["id"]: i for i in insts}
+    n = 0
+    for (iid, max_iter), sts in by_run(states).items():
+        inst = byid[iid]
+        want = {s["iter"]: s for s in sts}
+        last_iter = max(want)
+        s0 = want[0]
+        nn = len(inst["a"])
+        a, y = (np.array([float(v) for v in inst[k]]) for k in ("a", "y"))
+        tau = np.array([float(v) for v in inst["tau"]]) if inst["arr"] else float(inst["tau"][0])
+        sig = np.array([float(v) for v in inst["sigma"]]) if inst["arr"] else float(inst["sigma"][0])
+        lam, lo, hi = float(inst["lam"]), float(inst["lo"]), float(inst["hi"])
+        x, u = fl(s0["x"]), fl(s0["u"])
+        x_caller, u_caller = x, u
+        if inst["g"] == "zero":
+            pg = sp.prox.NoOp([nn])
+        elif inst["g"] == "l1":
+            pg = sp.prox.L1Reg([nn], lam)
+        elif inst["g"] == "sq":
+            pg = sp.prox.L2Reg([nn], lam)
+        else:
+            pg = sp.prox.BoxConstraint([nn], lo, hi)
+        alg = sp.alg.PrimalDualHybridGradient(sp.prox.L2Reg([nn], 1, y=-y), pg, lambda v: a * v, lambda v: a * v, x, u, tau, sig, max_iter=max_iter, tol=0)
+        key_args = "g=%s a=%s y=%s tau=%s sigma=%s start=%s" % (inst["g"], a, y, tau, sig, inst["start"])
+        nup = 0
+        ok = True
+        while not alg.done():
+            it0 = alg.iter
+            alg.update()
+            nup += 1
+            if alg.iter != it0 + 1:
+                viol(r, "counter", "PrimalDualHybridGradient", inst, "update() moved iter from %d to %d" % (it0, alg.iter))
+            m = want.get(alg.iter)
+            if m is not None and ok:
+                n += 1
+                if not (close(alg.x, fl(m["x"])) and close(alg.u, fl(m["u"]))):
+                    viol(r, "state", "PrimalDualHybridGradient", inst, "%s: after %d updates (x, u) = (%s, %s), model (%s, %s)" % (key_args, alg.iter, alg.x, alg.u, fl(m["x"]), fl(m["u"])))
+                    ok = False
+            if nup > max_iter + 2:
+                break
+        if nup > max_iter:
+            viol(r, "updates", "PrimalDualHybridGradient", inst, "%d updates performed, max_iter = %d" % (nup, max_iter))
+        if alg.x is not x_caller or alg.u is not u_caller:
+            viol(r, "held_solution", "PrimalDualHybridGradient", inst, "the primal / dual variables are no longer the caller's arrays", props=("C15", "C13"))
+        if nup < max_iter:
+            # stopped early: a further update must leave the solution unchanged (C15)
+            bx, bu = np.array(alg.x), np.array(alg.u)
+            alg.update()
+            if not (close(alg.x, bx) and close(alg.u, bu)):
+                viol(r, "early_stop", "PrimalDualHybridGradient", inst, "%s: stopped after %d of %d updates, a further update moves (x, u) from (%s, %s) to (%s, %s)" % (key_args, nup, max_iter, bx, bu, alg.x, alg.u))
+        if inst["start"] == "saddle" and max_iter >= 1 and ok:
+            m = want[0]
+            if not (close(x_caller, fl(m["x"])) and close(u_caller, fl(m["u"]))):
+                viol(r, "saddle_moved", "PrimalDualHybridGradient", inst, "%s: started at the saddle point (%s, %s) and moved to (%s, %s)" % (key_args, fl(m["x"]), fl(m["u"]), x_caller, u_caller), props=("C13",))
+    return n
+
+
 def run(ctx):
     core.use_repo()
     import sigpy as sp
@@ -528,6 +618,7 @@ def run(ctx):
         ("ALM", alm_instances, alm_tla, mi, ["MultipliersNonNegative", "FixedPointIsKKT", "KKTIsFixed", "DualDistanceNonIncreasing", "UnusedMultipliersUntouched"], ["CounterOnlyOnDual", "Terminates"], replay_alm),
         ("AltMin", altmin_instances, altmin_tla, mi, ["FixedPointIsMinimiser", "MinimiserIsFixed"], ["ObjectiveNonIncreasing", "Contraction", "CounterOnlyOnMin2", "Terminates"], replay_altmin),
         ("Newton", newton_instances, newton_tla, [0, 1, 2, 3], ["EarlyStopIsStationary", "ExactStepSolves", "RaisedOnlyOnAscent"], ["SearchEnds", "Terminates", "ArmijoOnAccept", "Descent", "AcceptedStepLength", "CounterOnlyOnAccept"], replay_newton),
+        ("PDHG", pdhg_instances, pdhg_tla, [0, 1, 2, 3, 4], ["SaddleIsFixed", "EarlyStopIsSaddle", "EarlyStopIsFixed"], ["FejerMonotone", "CounterByOne", "Terminates"], replay_pdhg),
         ("GerchbergSaxton", gs_instances, gs_tla, [0, 1, 3, 4], ["EarlyStopIsFixedPoint", "ResidualIsOfHeldX"], ["ErrorReduction", "CounterByOne", "Terminates"], replay_gs),
     ]
     for module, gen, to_tla, mis, invs, props, rep in jobs:
@@ -543,11 +634,17 @@ def run(ctx):
             r.notes.append("Newton model: %d states inside the line search, %d with at least one backtrack, %d raising runs, %d early stops at the minimiser"
                            % (sum(1 for s in states if s["pc"] == "search"), sum(1 for s in states if s["nbt"] > 0), sum(1 for s in states if s["pc"] == "raised"),
                               len({(s["inst"]["id"], s["max_iter"]) for s in states if s["pc"] == "start" and not s["fresh"] and s["lam2"][0] == 0 and s["iter"] < s["max_iter"]})))
+        if module == "PDHG":
+            r.count("C13", k, k, k)
+            r.notes.append("PDHG model: %d runs stop early (nothing moved), %d runs start at the saddle point, %d states with x = 0 held by the l1 prox while the dual moves"
+                           % (len({(s["inst"]["id"], s["max_iter"]) for s in states if not s["moved"] and s["iter"] < s["max_iter"]}),
+                              len({s["inst"]["id"] for s in states if s["inst"]["start"] == "saddle"}),
+                              sum(1 for s in states if s["iter"] >= 1 and s["moved"] and s["x"] == s["xprev"])))
         if module == "GerchbergSaxton":
             r.notes.append("GerchbergSaxton model: %d early stops at exact consistency, %d states after an ambiguous sign, longest transient %d updates"
                            % (len({(s["inst"]["id"], s["max_iter"]) for s in states if not s["fresh"] and s["res"][0] == 0 and s["iter"] < s["max_iter"]}), sum(1 for s in states if s["amb"]),
                               max(s["iter"] for s in states)))
-        r.notes.append("%s: %d instances x max_iter in %s, %d model states, %d replayed on sigpy.alg.%s" % (module, len(insts), mis, len(states), k, {"ALM": "AugmentedLagrangianMethod", "Newton": "NewtonsMethod"}.get(module, module)))
+        r.notes.append("%s: %d instances x max_iter in %s, %d model states, %d replayed on sigpy.alg.%s" % (module, len(insts), mis, len(states), k, {"ALM": "AugmentedLagrangianMethod", "Newton": "NewtonsMethod", "PDHG": "PrimalDualHybridGradient"}.get(module, module)))
     r.traces += total
     r.evaluations += total
     r.nontrivial += total
